@@ -28,8 +28,8 @@ ACTS = {"run": "ARunCell", "inspect": "AInspect", "cglobal": "ACompleteGlobal", 
         "runfile": "ARunFile", "prun": "APrun", "debugstmt": "ADebugStmt"}
 
 # the code variant the model describes: the repaired tree (fixes/F06, F14, F30)
-FIXED = {"f6": True, "f14": True, "f30": True}
-LEGACY = {"f6": False, "f14": False, "f30": False}
+FIXED = {"f6": True, "f14": True, "f30": True, "f35": True}
+LEGACY = {"f6": False, "f14": False, "f30": False, "f35": False}
 
 CELL_IMPORT = {"op": "cell", "act": "run", "text": "zz_v = b64decode('aGk=')\ndel b64decode", "names": [["ok", "b64decode"]],
                "del": True}
@@ -147,8 +147,8 @@ def c_env(e, variant):
 
 
 def c_io(e, variant):
-    return "(mkIo %s %s %s %s)" % (cm.cbool(bool(e.get("stdout_proxy"))), cm.cbool(e["prompts_class"]),
-                                   cm.cbool(e["pt_cli"]), cm.cbool(variant["f30"]))
+    return "(mkIo %s %s %s %s %s)" % (cm.cbool(bool(e.get("stdout_proxy"))), cm.cbool(e["prompts_class"]),
+                                      cm.cbool(e["pt_cli"]), cm.cbool(variant["f30"]), cm.cbool(variant["f35"]))
 
 
 NXT = 1000
@@ -221,7 +221,7 @@ def canon_impl(impl, case=None):
                 if c["error"] in injected and c["error"] != "NameError":
                     esc = c["error"]
             co = {"path": c["pf_calls"] > 0, "escaped": esc}
-            if c["act"] in ("run", "runfile", "prun", "debugstmt"):
+            if c["act"] in ("run", "runfile", "prun"):
                 co["ok"] = (c.get("error") != "NameError" and "NameError" not in c.get("stdout", "")) if esc is None else False
             elif c["act"] == "inspect":
                 co["ok"] = bool(c.get("result")) if "escaped" not in c else False
@@ -247,7 +247,7 @@ def canon_model(mtrace, case):
         c = None
         if co is not None:
             c = {"path": co["path"], "escaped": exc_name_of_model(co["escaped"])}
-            if o["act"] in ("run", "runfile", "prun", "debugstmt", "inspect"):
+            if o["act"] in ("run", "runfile", "prun", "inspect"):
                 c["ok"] = co["ok"]
         out.append([snap, c])
     return out
